@@ -12,6 +12,7 @@ from ..util import KIND, MODEL_NAMES, build, models
 from .c13 import _Variants
 
 PROPERTY = "C19"
+TECHNIQUE = "runtime monitoring: cross-copy differential monitor (every call replayed on the four sibling classes)"
 LEVEL = "exploration"
 RULE = ("Every monitored call on one model is replayed on the four sibling classes and the outcomes (value or exception "
         "class) compared: predict_win/draw/rank on identical (mu, sigma) and parameters (1e-12 absolute on probabilities; differences in "
